@@ -14,6 +14,11 @@ CLAUSES = ["AnsweredImpliesEquation", "AnsweredImpliesSquaredModulus", "Answered
 
 
 def describe(t):
+    if t.get("hist"):
+        h = t["hist"]
+        reused = ",".join(f"{b}:{m}" for b, m in h["modes"].items() if m != "fresh") or "none"
+        return (f"history#{h['h']} call {h['k']} {t['params']} refused={t['refused']} caller's buffers reused [{reused}] "
+                f"changed since the previous call: values of {h['changed'] or '-'}, scalars {h['scalars_changed'] or '-'}")
     sites = [(e["kind"], e["zr"], e["zi"], e["wr"], e["wi"]) for e in t["ev"]]
     return f"{t['family']} {t['params']} refused={t['refused']} sites(kind,z*4,w*4)={sites}"
 
@@ -166,6 +171,58 @@ def insitu(ctx):
                "step's last Euler step); epsilon is solver.epsilon after the call; sites whose exact |D|/(2c+1)^2 < 1e-9 have a free verdict")
 
 
+def history_coverage(ctx, traces, norm, accepted):
+    """Vacuity guards and sharpness canary of the call-history family (after the verdicts: never turns exit 1 into exit 2)."""
+    H = [n for n, t in enumerate(traces) if t.get("hist")]
+    reuse = {b: {m: 0 for m in pu.HIST_MODES} for b in pu.HIST_BUFFERS}     # buffer kept as `m`, ITS values changed, no scalar changed, answered, accepted
+    same = {b: 0 for b in pu.HIST_BUFFERS}                                  # buffer reused (in place / view), its values UNCHANGED, others or scalars changed
+    only = {g: 0 for g in pu.HIST_GROUPS}                                   # exactly one value group changed, nothing else
+    trans = {"answered->refused": 0, "refused->answered": 0, "refused->refused": 0}
+    scal = {"dt": 0, "gamma": 0, "u": 0}
+    for n in H:
+        t, h = traces[n], traces[n]["hist"]
+        if h["k"] == 0 or n not in accepted:
+            continue
+        if h["prev_refused"] is not None:
+            key = ("refused" if h["prev_refused"] else "answered") + "->" + ("refused" if t["refused"] else "answered")
+            if key in trans:
+                trans[key] += 1
+        for x in h["scalars_changed"]:
+            scal[x] += not t["refused"]
+        if t["refused"]:
+            continue
+        if len(h["changed"]) == 1 and not h["scalars_changed"]:
+            only[h["changed"][0]] += 1
+        for b in pu.HIST_BUFFERS:
+            g = pu.HIST_GROUP_OF[b]
+            if g in h["changed"] and not h["scalars_changed"]:
+                reuse[b][h["modes"][b]] += 1
+            if g not in h["changed"] and h["modes"][b] != "fresh" and (h["changed"] or h["scalars_changed"]):
+                same[b] += 1
+    ctx.cov["history"] = {"histories": len({traces[n]["hist"]["h"] for n in H}), "calls": len(H), "accepted": sum(1 for n in H if n in accepted),
+                          "refused_calls": sum(1 for n in H if traces[n]["refused"]),
+                          "answered_calls_after_ITS_values_changed_same_scalars (buffer -> how the caller keeps it)": reuse,
+                          "answered_calls_with_buffer_reused_unchanged_while_others_changed": same,
+                          "answered_calls_where_only_one_group_changed": only, "answered_calls_after_scalar_changed": scal, "verdict_transitions": trans}
+    if ctx.violations:
+        return
+    low = [(b, m, c) for b, d in reuse.items() for m, c in d.items() if c < 3]
+    if low or min(same.values()) < 3 or min(only.values()) < 2 or min(scal.values()) < 2 or trans["answered->refused"] < 2 or trans["refused->answered"] < 2:
+        raise core.MachineryFailure(f"C02: the call-history family does not reach every configuration: {ctx.cov['history']}")
+    # sharpness: the PREVIOUS call's answer, offered as the answer to this call's (changed) inputs, must be rejected by TLC
+    st = [n for n in H if n in accepted and traces[n].get("stale")]
+    if len(st) < 5:
+        raise core.MachineryFailure(f"C02: call histories: only {len(st)} calls whose inputs differ materially from the previous call's")
+    pick = st[::max(1, len(st) // 12)][:12]
+    bad = [{"refused": False, "ev": traces[n]["stale"]} for n in pick]
+    acc, _ = ctx.validate_traces("PsiUpdateTrace", bad, pu.trace_cfg(True), name="canary[C02 call histories: stale answer]", count=False)
+    if acc:
+        raise core.MachineryFailure(f"C02: the previous call's answer was accepted for changed inputs (history calls {[describe(traces[pick[a]]) for a in sorted(acc)][:3]})")
+    ctx.cov["canaries_rejected"] += len(bad)
+    ctx.assume("call histories: a call inside a history is judged exactly like an isolated call (the property quantifies over inputs): z, w are the documented ones "
+               "of the numbers the harness wrote into the caller's buffers for THIS call (kept in the harness's own lists, not read back from the buffers)")
+
+
 def run(ctx):
     ctx.cov["bounds"] = {"grid": "z, w in (1/4)Z[i], |z|,|w| <= 2 (197 x 197 points)", "candidate roots": "s = k/16, k = 0..64 (quick) / 0..128 (thorough)",
                          "dt": "2^-10..2^3", "u": [1.0, 5.79], "gamma": [0.0] + pu.GAMMAS, "epsilon": [-1.0, 0.0, 0.5, 1.0],
@@ -198,12 +255,16 @@ def run(ctx):
             p["werror"] = True
     ordinary = ([p for p in points if p["cls"] == "two" and p["r"] >= 0][:300] + [p for p in points if p["cls"] == "z0"][::4]
                 + [p for p in points if p["cls"] == "w0"][::8])
+    # call histories on caller-owned argument buffers (in place / views / fresh arrays): the answer is a function of the inputs of THIS call
+    hist = pu.history_plans(ctx.seed, ctx.quick)
+    unsolvable = [p for p in points if p["cls"] == "none"][ctx.seed % 7::137][:200]
     ctx.cov["exhaustive"] = not ctx.quick
     nchunk = 1 if ctx.quick else 14
     jobs = []
     for c in range(nchunk):
         jobs.append(("call", dict(module="harness.psiupdate", func="run_batch",
-                                  args=dict(plans=plans[c::nchunk], tiny=(tiny if c == 0 else []), near=near[c::nchunk], ordinary=ordinary))))
+                                  args=dict(plans=plans[c::nchunk], tiny=(tiny if c == 0 else []), near=near[c::nchunk], ordinary=ordinary,
+                                            histories=hist[c::nchunk], unsolvable=unsolvable))))
     traces = [t for chunk in rf.replay_all(ctx, jobs) for t in chunk]
     worst = max((t.get("realisation_error", 0.0) for t in traces), default=0.0)
     ctx.cov["worst_realisation_error"] = worst
@@ -265,6 +326,18 @@ def run(ctx):
                 what = (f"C02 {cl}{' [warnings are errors in the process]' if fam == 'tiny-W-error' else ''}: solve_for_psi_squared refuses (returns None) although every site is solvable "
                         f"(lemma SmallProductSolvable: |z||w| < 1/4): sites with |psi| in {{{', '.join(mags)}}} mixed with ordinary sites; "
                         f"{len(ns)} calls, e.g. {describe(traces[ns[0]])[:300]}")
+            elif fam == "history":
+                sig = {}
+                for n in ns:
+                    h = traces[n]["hist"]
+                    k = (",".join(h["changed"]) or "-", ",".join(h["scalars_changed"]) or "-")
+                    sig[k] = sig.get(k, 0) + 1
+                first = min(ns, key=lambda n: (traces[n]["hist"]["h"], traces[n]["hist"]["k"]))
+                what = (f"C02 {cl}: {len(ns)} calls of solve_for_psi_squared inside call HISTORIES on caller-owned argument buffers are rejected by PsiUpdateTrace "
+                        f"(z, w of the numbers in the buffers at the time of the call), although isolated calls are accepted: the answer depends on earlier calls / "
+                        f"on which array objects carry the inputs; first: {describe(traces[first])} worst residual quanta={traces[first]['worst']}; "
+                        f"(changed values, changed scalars) -> rejected calls: {sorted(sig.items(), key=lambda kv: -kv[1])[:8]}")
+                ex = [dict(traces[n], stale=None) for n in ns[:6]]
             else:
                 what = (f"C02 {cl}: the real solve_for_psi_squared is rejected by PsiUpdateTrace on {len(ns)} '{fam}' calls; "
                         f"first: {describe(traces[ns[0]])[:400]} observation={json.dumps(traces[ns[0]]['ev'])[:400]}")
@@ -294,6 +367,7 @@ def run(ctx):
         if acc:
             raise core.MachineryFailure(f"C02: corrupted traces {sorted(acc)} were accepted")
         ctx.cov["canaries_rejected"] += len(bad)
+    history_coverage(ctx, traces, norm, accepted)
     insitu(ctx)
     ctx.cov["rule"] = ("one case = one call of the real solve_for_psi_squared on a multi-site vector whose sites realise grid points emitted by "
                        "TLC (classes z=0 via gamma=0 or psi=0, w=0, tangent, two roots, no root) or tiny magnitudes; distinct = distinct "
